@@ -211,6 +211,9 @@ def run_gen(family, n, seed, tier):
 
 # ----------------------------------------------------------------------------- trace acceptance
 
+TRACE_STATS = {}
+
+
 def validate_trace(module, events, cfg=None, batch=20000, env=None, timeout=900, heap="4g", par=None):
     """Binding T. events: list of dicts (one trace event each). The trace spec consumes one event per
     step, prints a {"rej": l, "why": ..} record for every event it cannot accept, and its
@@ -241,6 +244,9 @@ def validate_trace(module, events, cfg=None, batch=20000, env=None, timeout=900,
         for o in r["lines"]:
             if isinstance(o, dict) and "rej" in o:
                 out.append((b + o["rej"] - 1, o.get("why", "?")))
+            elif isinstance(o, dict) and "stat" in o:
+                TRACE_STATS.setdefault(module, {}).setdefault(o["stat"], 0)
+                TRACE_STATS[module][o["stat"]] += 1
         return out
 
     par = par or max(1, min(8, NCPU // 2))
@@ -350,6 +356,8 @@ class Run:
             "out_of_model": self.oom,
             "known_findings_observed": hit or {},
         }
+        if TRACE_STATS:
+            cov["reference_status_of_validated_runs"] = TRACE_STATS
         cov.update(self.extra)
         ev = {
             "property_id": self.prop, "tier": self.tier, "seed": self.seed, "level": "model_checking",
